@@ -514,10 +514,22 @@ def main(argv=None):
     # ---------------- replay mode
     if args.replay:
         out = os.path.join(scratch, "replay.json")
-        cmd = [PYTHON, "-m", "irisverif.runtime", args.prop, "--worker", "--tier", args.tier, "--seed", str(args.seed),
-               "--replay", args.replay, "--out", out, "--budget", "600"]
-        rc, log = _spawn(cmd, 900, env)
+        try:
+            rmode = (json.load(open(args.replay)) or {}).get("replay_mode")
+        except Exception:
+            rmode = None
+        if rmode and rmode.get("kind") == "shard":
+            # history-dependent violation: the replay is the shard that produced it (same seed, same cases, same order)
+            cmd = [PYTHON, "-m", "irisverif.runtime", args.prop, "--worker", "--tier", rmode["tier"], "--seed", str(rmode["seed"]),
+                   "--shard", str(rmode["shard"]), "--nshards", str(rmode["nshards"]), "--out", out, "--budget", str(rmode["budget"])]
+            rc, log = _spawn(cmd, float(rmode["budget"]) * 3 + 600, env)
+        else:
+            cmd = [PYTHON, "-m", "irisverif.runtime", args.prop, "--worker", "--tier", args.tier, "--seed", str(args.seed),
+                   "--replay", args.replay, "--out", out, "--budget", "600"]
+            rc, log = _spawn(cmd, 900, env)
         rep = _read(out)
+        if rep is not None and rmode and rmode.get("kind") == "shard":
+            rep["violations"] = [w for w in rep.get("violations", []) if stable_hash(w.get("case")) == rmode.get("case_hash")]
         _rmtree(scratch)
         if rep is None or rep.get("status") != "ok":
             print(f"INCONCLUSIVE property={args.prop} replay harness error")
@@ -613,6 +625,7 @@ def main(argv=None):
     unconfirmed = 0
     replay_dir = os.path.join(VERIF, "replays", args.prop)
     seen_keys = collections.Counter()
+    shard_reruns = {}
     for v in violations:
         if v["key"] in kf:
             known_hit.setdefault(v["key"], v)
@@ -633,6 +646,26 @@ def main(argv=None):
             rc, log = _spawn(cmd, 900, env)
             rep = _read(out)
             if rep is None or rep.get("status") != "ok" or not any(w["key"] == v["key"] for w in rep["violations"]):
+                # second stage: the case alone does not reproduce it -- does the shard that produced it (same seed, same cases
+                # in the same order, fresh process)?  A violation that needs the cases before it depends on process history
+                # (a cache that outlives a call, module-level state) and is as real as any other
+                sh = v.get("shard")
+                if sh is not None and sh not in shard_reruns:
+                    out2 = os.path.join(scratch, f"rerun{sh}.json")
+                    cmd2 = [PYTHON, "-m", "irisverif.runtime", args.prop, "--worker", "--tier", args.tier, "--seed", str(args.seed),
+                            "--shard", str(sh), "--nshards", str(nshards), "--out", out2, "--budget", str(budget * 3)]
+                    _spawn(cmd2, hard * 3, env)
+                    shard_reruns[sh] = _read(out2)
+                rep2 = shard_reruns.get(sh)
+                same = [w for w in (rep2 or {}).get("violations", []) if w["key"] == v["key"] and stable_hash(w.get("case")) == stable_hash(v.get("case"))]
+                if rep2 is not None and rep2.get("status") == "ok" and same:
+                    v["replay_mode"] = {"kind": "shard", "tier": args.tier, "seed": args.seed, "shard": sh, "nshards": nshards, "budget": budget * 3,
+                                        "case_hash": stable_hash(v.get("case"))}
+                    v["message"] += "  [reproduced in a fresh process only together with the cases that precede it in its shard: depends on process history]"
+                    with open(path, "w") as f:
+                        json.dump(v, f, indent=1)
+                    confirmed.append((v, path))
+                    continue
                 unconfirmed += 1
                 inconclusive["violation_not_reproduced_in_fresh_process"] += 1
                 os.replace(path, path + ".unconfirmed")
